@@ -84,7 +84,7 @@ var scenarios = []scenario{
 		s.both(model.And(cmpc(model.OpGt, "x", int64(2)), model.Or(cmpc(model.OpLt, "x", int64(4)), cmpc(model.OpGt, "x", int64(11)))))
 		s.both(model.Not(model.And(cmpc(model.OpGtEq, "x", int64(4)), cmpc(model.OpLtEq, "x", int64(9)))))
 	}},
-	{"D2-nil-bounds", "C02 C01", func(s *S) {
+	{"D2-nil-bounds", "C02 C01 C17", func(s *S) {
 		s.twins(numDocs(8), "x")
 		for _, op := range []model.OpKind{model.OpGt, model.OpGtEq, model.OpLt, model.OpLtEq, model.OpEq, model.OpNeq} {
 			s.both(cmpc(op, "x", nil))
